@@ -88,6 +88,11 @@ func (m *MdatBox) Size() uint64 {
 
 // AddSampleData -  a sample data to an mdat box
 func (m *MdatBox) AddSampleData(s []byte) {
+	if len(m.DataParts) > 0 {
+		// Data parts are in use (AddSampleDataPart). Continue with parts so that all data is written in the order added
+		m.DataParts = append(m.DataParts, s)
+		return
+	}
 	m.Data = append(m.Data, s...)
 }
 
